@@ -112,7 +112,20 @@ fn pattern_qual(w: &World, len: usize) -> Vec<u8> {
 
 fn gen_records(w: &World, kind: Kind, scale: Scale, magic: Option<usize>, edge_desc: bool) -> Vec<Rec> {
     let mut v: Vec<Rec> = Vec::new();
-    let max_recs = if scale == Scale::Many { 300 } else { 6 };
+    // (1 many-records run in 12: thousands of records, so that "the 1000th record" and totals that
+    // cross 2^16 are reached)
+    let thousands = scale == Scale::Many && w.chance(1, 12);
+    if thousands {
+        w.probe("thousands_of_records");
+    }
+    let max_recs = if thousands { 4000 } else if scale == Scale::Many { 300 } else { 6 };
+    // 1 many-records run in 3: every read has the same length, as an instrument run writes them
+    let fixed_len: Option<usize> = if scale == Scale::Many && w.chance(1, 3) {
+        w.probe("all_reads_of_one_length");
+        Some(*w.pick(&[36usize, 50, 100, 150, 1, 2, 76, 251]))
+    } else {
+        None
+    };
     // 1 run in 6 uses read names as sequencers write them: a shared run prefix plus a counter of
     // varying width, and descriptions made of short words separated by single blanks — neighbouring
     // headers then share long prefixes and have blanks at many offsets
@@ -124,7 +137,7 @@ fn gen_records(w: &World, kind: Kind, scale: Scale, magic: Option<usize>, edge_d
     };
     loop {
         let go = if scale == Scale::Many {
-            (v.len() as u64) < max_recs && w.chance(60, 61)
+            (v.len() as u64) < max_recs && if thousands { w.chance(1500, 1501) } else { w.chance(60, 61) }
         } else {
             w.more(v.len() as u64, max_recs)
         };
@@ -148,7 +161,7 @@ fn gen_records(w: &World, kind: Kind, scale: Scale, magic: Option<usize>, edge_d
             string_from(w, id_chars(), 1, 8)
         };
         let desc = if w.chance(1, 2) {
-            let mut d = if scale == Scale::Huge && w.chance(1, 4) {
+            let mut d = if scale == Scale::Huge && w.chance(1, 4) && w.take_big(3 << 20) {
                 // a header line of boundary length up to 2 MiB (one drawn character repeated: the
                 // length matters here, not the content)
                 let n = *w.pick(&[65_536usize, 65_535, 65_537, 1 << 20, (1 << 20) + 1, (1 << 20) + 5000, 1 << 21, 300_000]);
@@ -211,11 +224,17 @@ fn gen_records(w: &World, kind: Kind, scale: Scale, magic: Option<usize>, edge_d
         };
         let len = match (scale, magic) {
             (Scale::Large, _) if w.chance(1, 2) => w.range(1, 20_000) as usize,
-            (Scale::Huge, _) if w.chance(1, 8) => *w.pick(&[1usize << 20, (1 << 20) + 1, (1 << 20) - 1, 1 << 21, (1 << 20) + 4097]),
+            // (1 huge run in 30: one sequence of 8 MiB and more)
+            (Scale::Huge, _) if v.is_empty() && w.chance(1, 30) && w.take_big(24 << 20) => {
+                w.probe("sequence_of_8_mib_or_more");
+                *w.pick(&[8usize << 20, (8 << 20) + 1, 10_000_000, (8 << 20) + 61])
+            }
+            (Scale::Huge, _) if w.chance(1, 8) && w.take_big(5 << 20) => *w.pick(&[1usize << 20, (1 << 20) + 1, (1 << 20) - 1, 1 << 21, (1 << 20) + 4097]),
             (Scale::Huge, _) if w.chance(1, 2) => w.range(1, 200_000) as usize,
             // many records, mostly small, now and then one long line among them
+            (Scale::Many, _) if fixed_len.is_some() => fixed_len.unwrap(),
             (Scale::Many, _) => {
-                if w.chance(1, 40) {
+                if w.chance(1, 40) && w.take_big(150_000) {
                     *w.pick(&[1100usize, 2048, 5000, 70_000])
                 } else {
                     w.small(1, 40) as usize
@@ -341,7 +360,10 @@ fn gen_writer_cfg(w: &World, kind: Kind, recs: &[Rec], magic: Option<usize>) -> 
         }
     };
     let maxlen = recs.iter().map(|r| r.seq.len()).max().unwrap_or(1);
-    let wrap = if kind == Kind::Fasta && w.chance(1, 2) {
+    // (a chromosome-sized sequence is wrapped 3 times in 4: that is how such records are written)
+    let wrap = if kind == Kind::Fasta && maxlen >= 8 << 20 && w.chance(3, 4) {
+        Some(*w.pick(&[60usize, 70, 80, 61, 1 << 16]))
+    } else if kind == Kind::Fasta && w.chance(1, 2) {
         Some(match (w.draw(4), magic) {
             // "any line wrap": widths near the top of the integer range must simply mean "no wrap"
             _ if w.chance(1, 40) => *w.pick(&[usize::MAX, usize::MAX - 1, 1usize << 63, (u32::MAX as usize) + 1, u32::MAX as usize, usize::MAX / 2 + 1]),
